@@ -1,5 +1,95 @@
 package main
 
+import (
+	"crypto/sha256"
+	"encoding/hex"
+	"encoding/json"
+	"fmt"
+	"os"
+
+	intoto "github.com/in-toto/in-toto-golang/in_toto"
+)
+
+// Request / Response of the isolated calls.
+type runReq struct {
+	Mode   string   `json:"mode"` // runcommand | intotorun
+	Args   []string `json:"args"`
+	RunDir string   `json:"run_dir"`
+	DSSE   bool     `json:"dsse"`
+}
+
+type runResp struct {
+	Err         string  `json:"err,omitempty"`
+	Panic       string  `json:"panic,omitempty"`
+	StdoutLen   int     `json:"stdout_len"`
+	StdoutSHA   string  `json:"stdout_sha"`
+	StderrLen   int     `json:"stderr_len"`
+	StderrSHA   string  `json:"stderr_sha"`
+	ReturnValue float64 `json:"return_value"`
+	HasReturn   bool    `json:"has_return"`
+	Keys        int     `json:"keys"`
+}
+
+func sha(s string) string {
+	h := sha256.Sum256([]byte(s))
+	return hex.EncodeToString(h[:])
+}
+
+func fill(resp *runResp, m map[string]any) {
+	resp.Keys = len(m)
+	so, _ := m["stdout"].(string)
+	se, _ := m["stderr"].(string)
+	resp.StdoutLen, resp.StdoutSHA = len(so), sha(so)
+	resp.StderrLen, resp.StderrSHA = len(se), sha(se)
+	resp.ReturnValue, resp.HasReturn = m["return-value"].(float64)
+}
+
 func dispatch(mode string, args []string) bool {
+	switch mode {
+	case "run":
+		if len(args) != 2 {
+			return false
+		}
+		var req runReq
+		data, err := os.ReadFile(args[0])
+		if err != nil || json.Unmarshal(data, &req) != nil {
+			fmt.Fprintln(os.Stderr, "worker: bad request")
+			os.Exit(2)
+		}
+		var resp runResp
+		func() {
+			defer func() {
+				if p := recover(); p != nil {
+					resp.Panic = fmt.Sprint(p)
+				}
+			}()
+			switch req.Mode {
+			case "runcommand":
+				m, err := intoto.RunCommand(req.Args, req.RunDir)
+				if err != nil {
+					resp.Err = err.Error()
+					return
+				}
+				fill(&resp, m)
+			case "intotorun":
+				md, err := intoto.InTotoRun("step", req.RunDir, []string{}, []string{}, req.Args, intoto.Key{}, []string{"sha256"}, nil, nil, false, false, req.DSSE)
+				if err != nil {
+					resp.Err = err.Error()
+					return
+				}
+				link, ok := md.GetPayload().(intoto.Link)
+				if !ok {
+					resp.Err = "not a link"
+					return
+				}
+				fill(&resp, link.ByProducts)
+			}
+		}()
+		out, _ := json.Marshal(resp)
+		if err := os.WriteFile(args[1], out, 0o644); err != nil {
+			os.Exit(2)
+		}
+		return true
+	}
 	return false
 }
